@@ -1,6 +1,287 @@
-(** C12 -- property theorems (stub while the pipeline is brought up) *)
-From Coq Require Import List Bool Arith ZArith PArith QArith.
-From P Require Import Locate.
+(** C12 -- property theorems only.  Each is closed by [exact] of a lemma proved in the other
+    files of this directory and followed by Print Assumptions.
+
+    Model: Locate.v (exact-rational transcription of geometry.py / mulgrids.py location code);
+    the constants [track_tol], [sub_rect_factor], [quadtree_split_threshold] and the absence
+    of the in_polygon tolerance guard come from Gen/GenGeom.v, regenerated from the source on
+    every run.  "contains" below always means the model's own [contains_point]
+    (= [in_polygon], the crossing count with the half-open rule). *)
+From Coq Require Import List Bool Arith ZArith PArith QArith Qabs Sorted Permutation.
+From Gen Require Import GenGeom.
+From P Require Import Locate LocBasics LocSearch LocPolygon LocBlock LocTrack LocRefuted LocMain.
+Import ListNotations.
+Open Scope Q_scope.
+
+Notation colfun A := (positive -> A) (only parsing).
+
+(** ** constants read from the source *)
 Theorem sub_rect_factor_half : GenGeom.sub_rect_factor = (1 # 2)%Q.
 Proof. exact sub_rect_factor_is_half. Qed.
 Print Assumptions sub_rect_factor_half.
+Theorem in_polygon_has_no_tolerance_guard : GenGeom.in_polygon_has_guard = false.
+Proof. exact in_polygon_guard_absent. Qed.
+Print Assumptions in_polygon_has_no_tolerance_guard.
+
+(** ** rectangles *)
+Theorem in_rectangle_spec : forall pos r,
+  in_rectangle pos r = true <->
+  (px (fst r) <= px pos /\ px pos <= px (snd r)) /\ (py (fst r) <= py pos /\ py pos <= py (snd r)).
+Proof. exact in_rectangle_spec_l. Qed.
+Print Assumptions in_rectangle_spec.
+Theorem rectangles_intersect_spec : forall r1 r2,
+  wf_rect r1 -> wf_rect r2 ->
+  (rectangles_intersect r1 r2 = true <-> exists p, In_rect p r1 /\ In_rect p r2).
+Proof. exact rectangles_intersect_common_point. Qed.
+Print Assumptions rectangles_intersect_spec.
+Example rectangles_intersect_spec_ex : wf_rect ((0, 0), (1, 1)) /\ wf_rect ((1, 1), (2, 3)).
+Proof. repeat split; vm_compute; discriminate. Qed.
+(** every point of a rectangle lies in one of its four sub-rectangles (the quadtree takes the first) *)
+Theorem sub_rectangles_cover : forall r p,
+  In_rect p r -> exists r', In r' (sub_rectangles r) /\ In_rect p r'.
+Proof. exact sub_rectangles_cover_l. Qed.
+Print Assumptions sub_rectangles_cover.
+Theorem sub_rectangles_within : forall r r' p,
+  wf_rect r -> In r' (sub_rectangles r) -> In_rect p r' -> In_rect p r.
+Proof. exact sub_rectangles_inside. Qed.
+Print Assumptions sub_rectangles_within.
+
+(** ** in_polygon *)
+(** a point the crossing count puts inside lies in the polygon's bounding box: the
+    [near_point] pre-filter of every search never discards the containing column *)
+Theorem in_polygon_in_bounding_box : forall pos poly,
+  in_polygon pos poly = true -> in_rectangle pos (bounds_of_points poly) = true.
+Proof. exact in_polygon_in_bounds. Qed.
+Print Assumptions in_polygon_in_bounding_box.
+(** DESIGN's [in_polygon_convex], proved for the columns of rectangular geometries only:
+    with PyTOUGH's vertex order the crossing count is the half-open box test *)
+Theorem in_polygon_convex_partial : forall x0 y0 x1 y1 pos,
+  x0 < x1 -> y0 < y1 ->
+  in_polygon pos [(x1, y0); (x1, y1); (x0, y1); (x0, y0)] =
+  (qle x0 (px pos) && qlt (px pos) x1) && (qle y0 (py pos) && qlt (py pos) y1).
+Proof. exact in_polygon_rectangle. Qed.
+Print Assumptions in_polygon_convex_partial.
+Theorem rectangular_columns_tile : forall xa0 ya0 xa1 ya1 xb0 yb0 xb1 yb1 pos,
+  xa0 < xa1 -> ya0 < ya1 -> xb0 < xb1 -> yb0 < yb1 ->
+  (xa1 <= xb0 \/ xb1 <= xa0 \/ ya1 <= yb0 \/ yb1 <= ya0) ->
+  in_polygon pos [(xa1, ya0); (xa1, ya1); (xa0, ya1); (xa0, ya0)] = true ->
+  in_polygon pos [(xb1, yb0); (xb1, yb1); (xb0, yb1); (xb0, yb0)] = true -> False.
+Proof. exact rectangle_columns_disjoint. Qed.
+Print Assumptions rectangular_columns_tile.
+
+(** ** quadtree *)
+(** the node [leaf] returns is a node of the tree, its rectangle contains the point and
+    none of its children's rectangles does *)
+Theorem quadtree_leaf_contains : forall t pos l,
+  leaf t pos = Some l ->
+  subtree l t /\ in_rectangle pos (qbounds l) = true /\
+  (forall c, In c (qchildren l) -> in_rectangle pos (qbounds c) = false).
+Proof. exact leaf_spec. Qed.
+Print Assumptions quadtree_leaf_contains.
+Theorem quadtree_leaf_exists : forall t pos,
+  in_rectangle pos (qbounds t) = true -> exists l, leaf t pos = Some l.
+Proof. exact leaf_inside. Qed.
+Print Assumptions quadtree_leaf_exists.
+(** in a built tree every node holds some of the root's elements, each with its centre in the node's rectangle *)
+Theorem quadtree_nodes_hold_their_elements : forall (centre : colfun pt) fuel b es n,
+  (forall e, In e es -> in_rectangle (centre e) b = true) ->
+  subtree n (build centre fuel b es) ->
+  incl (qelements n) es /\ forall e, In e (qelements n) -> in_rectangle (centre e) (qbounds n) = true.
+Proof.
+  exact (fun centre fuel b es n H S =>
+           conj (build_subtree_elements centre fuel b es n S) (build_subtree_centres centre fuel b es n H S)).
+Qed.
+Print Assumptions quadtree_nodes_hold_their_elements.
+
+(** ** column_containing_point *)
+(** whatever search aids are used, a returned column contains the point (and the point is
+    inside the bounds given) *)
+Theorem search_sound : forall (polygon : colfun (list pt)) (centre : colfun pt) (nbrs : colfun (list positive))
+    (bbox : colfun rect) columnlist pos columns guess bounds qt c,
+  column_containing_point polygon centre nbrs bbox columnlist pos columns guess bounds qt = Some c ->
+  contains_point polygon c pos = true /\ inbounds pos bounds = true.
+Proof. exact ccp_sound. Qed.
+Print Assumptions search_sound.
+(** a point outside every column yields nothing, whatever the aids *)
+Theorem outside_gives_none : forall (polygon : colfun (list pt)) (centre : colfun pt) (nbrs : colfun (list positive))
+    (bbox : colfun rect) columnlist pos columns guess bounds qt,
+  (forall c, contains_point polygon c pos = false) ->
+  column_containing_point polygon centre nbrs bbox columnlist pos columns guess bounds qt = None.
+Proof. exact ccp_outside. Qed.
+Print Assumptions outside_gives_none.
+(** plain search is exhaustive search over the column list *)
+Theorem plain_search_exhaustive : forall (polygon : colfun (list pt)) (centre : colfun pt) (nbrs : colfun (list positive))
+    (bbox : colfun rect) columnlist,
+  (forall c, bbox c = bounds_of_points (polygon c)) ->
+  forall pos,
+  (column_containing_point polygon centre nbrs bbox columnlist pos None None None None = None <->
+   forall c, In c columnlist -> contains_point polygon c pos = false) /\
+  (forall c, column_containing_point polygon centre nbrs bbox columnlist pos None None None None = Some c ->
+             In c columnlist /\ contains_point polygon c pos = true).
+Proof.
+  exact (fun polygon centre nbrs bbox columnlist H pos =>
+           conj (plain_none_iff polygon centre nbrs bbox columnlist H pos)
+                (plain_some polygon centre nbrs bbox columnlist pos)).
+Qed.
+Print Assumptions plain_search_exhaustive.
+(** the neighbour wave of the quadtree search: sound, and complete along the edges it follows *)
+Theorem search_wave_complete : forall (polygon : colfun (list pt)) (nbrs : colfun (list positive)) (bbox : colfun rect)
+    t pos T,
+  connected_near nbrs bbox t pos T -> contains_point polygon T pos = true ->
+  exists e, search polygon nbrs bbox t pos = Some e /\ contains_point polygon e pos = true.
+Proof. exact search_complete_l. Qed.
+Print Assumptions search_wave_complete.
+(** agreement of the search aids, under the explicit hypotheses [tiling] (at most one column
+    contains the point) and [connected_near] (the containing column is reachable from the
+    elements of the quadtree leaf through neighbours whose bounding boxes meet the leaf), and
+    the premises of the aids themselves (the bounds contain the point, the column subset
+    contains the answer): every combination returns the column plain search returns *)
+Theorem search_aids_agree : forall (polygon : colfun (list pt)) (centre : colfun pt) (nbrs : colfun (list positive))
+    (bbox : colfun rect) columnlist,
+  (forall c, bbox c = bounds_of_points (polygon c)) ->
+  forall pos columns guess bounds qt T,
+  tiling polygon pos ->
+  In T columnlist -> contains_point polygon T pos = true ->
+  inbounds pos bounds = true ->
+  In T (match columns with None => columnlist | Some cs => cs end) ->
+  (forall t, qt = Some t -> connected_near nbrs bbox t pos T) ->
+  column_containing_point polygon centre nbrs bbox columnlist pos columns guess bounds qt = Some T /\
+  column_containing_point polygon centre nbrs bbox columnlist pos None None None None = Some T.
+Proof. exact aids_agree. Qed.
+Print Assumptions search_aids_agree.
+Example search_aids_agree_ex :
+  tiling m_polygon (60, 140) /\ In 4%positive m_columns /\
+  contains_point m_polygon 4%positive (60, 140) = true /\
+  (forall c, m_bbox c = bounds_of_points (m_polygon c)) /\
+  connected_near m_nbrs m_bbox m_tree (60, 140) 4%positive.
+Proof. exact m_example_hyps. Qed.
+(** without [connected_near] the agreement fails for the quadtree (known finding
+    quadtree.search:container-unreachable-from-leaf): the M-grid, point (260, 118) *)
+Theorem qtree_incomplete_refuted :
+  exists (polygon : colfun (list pt)) (centre : colfun pt) (nbrs : colfun (list positive)) (bbox : colfun rect)
+         columnlist fuel bounds pos T,
+    let t := build centre fuel bounds columnlist in
+    (qdepth t < fuel)%nat /\
+    In T columnlist /\ contains_point polygon T pos = true /\
+    (forall c, In c columnlist -> contains_point polygon c pos = true -> c = T) /\
+    column_containing_point polygon centre nbrs bbox columnlist pos None None None None = Some T /\
+    column_containing_point polygon centre nbrs bbox columnlist pos None None None (Some t) = None.
+Proof. exact qtree_incomplete_refuted_l. Qed.
+Print Assumptions qtree_incomplete_refuted.
+Theorem qtree_incomplete_hypothesis_fails : ~ connected_near m_nbrs m_bbox m_tree m_pos 5%positive.
+Proof. exact m_not_connected_near. Qed.
+Print Assumptions qtree_incomplete_hypothesis_fails.
+
+(** ** blocks *)
+(** layers partition the elevations *)
+Theorem layers_partition_elevations : forall ls z i j li lj,
+  stacked ls -> off_boundaries ls z ->
+  nth_error ls i = Some li -> nth_error ls j = Some lj ->
+  contains_elevation li z = true -> contains_elevation lj z = true -> i = j.
+Proof. exact layer_unique. Qed.
+Print Assumptions layers_partition_elevations.
+Example layers_partition_elevations_ex : stacked ex_layers /\ off_boundaries ex_layers (-15).
+Proof. exact ex_layers_ok. Qed.
+(** the block reported for a 3-D point contains it and is the unique block that does
+    (outside the case "above layer 1 but below the column surface", where the top block is reported) *)
+Theorem block_for_point_unique : forall (polygon : colfun (list pt)) (centre : colfun pt) (nbrs : colfun (list positive))
+    (bbox : colfun rect) (surface : colfun Q) columnlist layerlist pos z qt li col,
+  tiling polygon pos -> stacked layerlist -> off_boundaries layerlist z ->
+  block_containing_point polygon centre nbrs bbox surface columnlist layerlist pos z qt = Some (li, col) ->
+  In col columnlist -> surface_case surface layerlist z col = false ->
+  block_contains_point polygon surface columnlist layerlist li col pos z = true /\
+  forall li' col', block_contains_point polygon surface columnlist layerlist li' col' pos z = true ->
+                   li' = li /\ col' = col.
+Proof. exact bcp_unique. Qed.
+Print Assumptions block_for_point_unique.
+Theorem block_reported_facts : forall (polygon : colfun (list pt)) (centre : colfun pt) (nbrs : colfun (list positive))
+    (bbox : colfun rect) (surface : colfun Q) columnlist layerlist pos z qt li col,
+  block_containing_point polygon centre nbrs bbox surface columnlist layerlist pos z qt = Some (li, col) ->
+  column_containing_point polygon centre nbrs bbox columnlist pos None None None qt = Some col /\
+  contains_point polygon col pos = true /\
+  exists l, nth_error layerlist li = Some l /\ lbottom l < surface col /\
+            ((surface_case surface layerlist z col = true /\ li = 1%nat) \/
+             (surface_case surface layerlist z col = false /\ (1 <= li)%nat /\ contains_elevation l z = true)).
+Proof. exact bcp_sound. Qed.
+Print Assumptions block_reported_facts.
+(** a block below the atmosphere layer that contains the point is the one reported *)
+Theorem block_containing_is_reported : forall (polygon : colfun (list pt)) (centre : colfun pt)
+    (nbrs : colfun (list positive)) (bbox : colfun rect) (surface : colfun Q) columnlist layerlist pos z qt li col,
+  tiling polygon pos -> stacked layerlist -> off_boundaries layerlist z ->
+  (1 <= li)%nat ->
+  block_contains_point polygon surface columnlist layerlist li col pos z = true ->
+  near_point bbox col pos = true ->
+  (forall t, qt = Some t -> connected_near nbrs bbox t pos col) ->
+  block_containing_point polygon centre nbrs bbox surface columnlist layerlist pos z qt = Some (li, col).
+Proof. exact bcp_complete. Qed.
+Print Assumptions block_containing_is_reported.
+Theorem block_outside_gives_none : forall (polygon : colfun (list pt)) (centre : colfun pt) (nbrs : colfun (list positive))
+    (bbox : colfun rect) (surface : colfun Q) columnlist layerlist pos z qt,
+  (forall c, contains_point polygon c pos = false) ->
+  block_containing_point polygon centre nbrs bbox surface columnlist layerlist pos z qt = None.
+Proof. exact bcp_outside. Qed.
+Print Assumptions block_outside_gives_none.
+
+(** ** column_track (the assembly, over abstract per-column intersection data) *)
+(** every listed segment belongs to a column of the list whose bounding box the line meets; its
+    entry/exit points are the line's end points (in the column holding them) or the column's
+    first/last intersection points; it is longer than tol x the column's longest side, or is the
+    whole line inside one column *)
+Theorem track_entries_ok : forall (polygon : colfun (list pt)) (lir : colfun bool) (inters : colfun (list pt))
+    (tdist : pt -> Q) (maxside : colfun Q) tol l0 l1 cols s,
+  In s (column_track polygon lir inters tdist maxside tol l0 l1 cols) ->
+  exists d, In (d, s) (track_keyed polygon lir inters tdist maxside tol l0 l1 cols) /\
+            entry_ok polygon lir inters tdist maxside tol l0 l1 cols (d, s).
+Proof. exact track_entries. Qed.
+Print Assumptions track_entries_ok.
+(** the track is ordered by the distance of the entry points from the start of the line ... *)
+Theorem track_sorted : forall (polygon : colfun (list pt)) (lir : colfun bool) (inters : colfun (list pt))
+    (tdist : pt -> Q) (maxside : colfun Q) tol l0 l1 cols,
+  Sorted (fun a b : Q * seg => fst a <= fst b) (track_keyed polygon lir inters tdist maxside tol l0 l1 cols).
+Proof. exact track_keyed_sorted. Qed.
+Print Assumptions track_sorted.
+(** ... and sorting neither loses nor invents segments *)
+Theorem track_is_permutation_of_found : forall (polygon : colfun (list pt)) (lir : colfun bool) (inters : colfun (list pt))
+    (tdist : pt -> Q) (maxside : colfun Q) tol l0 l1 cols,
+  Permutation
+    (map snd (t_track (fold_left (track_step polygon lir inters tdist maxside tol l0 l1) cols (mkT None None [] false))))
+    (column_track polygon lir inters tdist maxside tol l0 l1 cols).
+Proof. exact track_perm. Qed.
+Print Assumptions track_is_permutation_of_found.
+(** one column of the loop: a column with intersection points is left out only when its
+    clip is at most tol x its longest side (the clips "dropped by design") *)
+Theorem track_drops_only_short_clips : forall (polygon : colfun (list pt)) (lir : colfun bool) (inters : colfun (list pt))
+    (tdist : pt -> Q) (maxside : colfun Q) tol l0 l1 st col,
+  t_stop st = false -> lir col = true ->
+  let st' := track_step polygon lir inters tdist maxside tol l0 l1 st col in
+  t_start st' = new_start polygon l0 st col /\ t_end st' = new_end polygon l1 st col /\
+  ((opt_is col (new_start polygon l0 st col) && opt_eq (new_start polygon l0 st col) (new_end polygon l1 st col) = true /\
+    t_stop st' = true /\ t_track st' = t_track st ++ [(0, (col, l0, l1))]) \/
+   (opt_is col (new_start polygon l0 st col) && opt_eq (new_start polygon l0 st col) (new_end polygon l1 st col) = false /\
+    t_stop st' = false /\
+    ((inters col = [] /\ t_track st' = t_track st) \/
+     exists p0 prest, inters col = p0 :: prest /\
+       let pin := pin_of polygon l0 st col p0 in let pout := pout_of polygon l0 l1 st col (last prest p0) in
+       ((maxside col * tol < Qabs (tdist pout - tdist pin) /\
+         t_track st' = t_track st ++ [(tdist pin, (col, pin, pout))]) \/
+        (Qabs (tdist pout - tdist pin) <= maxside col * tol /\ t_track st' = t_track st))))).
+Proof. exact track_step_cases. Qed.
+Print Assumptions track_drops_only_short_clips.
+(** consecutive segments abut => the lengths add up to the distance between the first entry
+    point and the last exit point *)
+Theorem track_segments_telescope : forall (tdist : pt -> Q) a l,
+  abut (a :: l) -> sum_len tdist (a :: l) == tdist (seg_out (last l a)) - tdist (seg_in a).
+Proof. exact telescope_abut. Qed.
+Print Assumptions track_segments_telescope.
+Example track_segments_telescope_ex :
+  abut [(1%positive, (0, 0), (1, 0)); (2%positive, (1, 0), (3, 0))].
+Proof. intros a b [H|[]]. inversion H; subst. reflexivity. Qed.
+(** in general lengths + gaps = that distance, and gaps bounded one by one bound the missing length *)
+Theorem track_lengths_and_gaps : forall (tdist : pt -> Q) a l,
+  sum_len tdist (a :: l) + sum_gaps tdist (a :: l) == tdist (seg_out (last l a)) - tdist (seg_in a).
+Proof. exact telescope_general. Qed.
+Print Assumptions track_lengths_and_gaps.
+Theorem track_gaps_bounded : forall (tdist : pt -> Q) l B,
+  (forall g, In g (gap_list tdist l) -> g <= B) ->
+  sum_gaps tdist l <= inject_Z (Z.of_nat (length (gap_list tdist l))) * B.
+Proof. exact sum_gaps_bound. Qed.
+Print Assumptions track_gaps_bounded.
